@@ -52,7 +52,7 @@ func c06Property(rt *rapid.T, ev *evid.Rec, deps bool) {
 	fail := func(f string, a ...any) {
 		rt.Fatalf("VERIF-VIOLATION property=C06 %s\n history:\n   %s", fmt.Sprintf(f, a...), m.History())
 	}
-	straddle, aboveHead, resumed, midGrowth := false, false, false, false
+	straddle, aboveHead, resumed, midGrowth, commitFault := false, false, false, false, false
 	doneSeen := map[string]bool{}
 	restartedSince := map[string]bool{}
 	check := func(p *Pair, r StepResult) {
@@ -128,6 +128,25 @@ func c06Property(rt *rapid.T, ev *evid.Rec, deps bool) {
 			for _, p := range w.Pairs {
 				restartedSince[p.Key()] = true
 			}
+		case 5:
+			// a COMMIT of the step fails (serialization failure / dropped connection): nothing of the
+			// step is recorded, and the next step of the same task resumes from the recorded position
+			p := m.pickPair("steppair")
+			k, kind, seen := rapid.IntRange(1, 2).Draw(rt, "failcommit"), rapid.SampledFrom([]fakepg.FaultKind{fakepg.ErrReply, fakepg.DropBefore}).Draw(rt, "commitfault"), 0
+			w.db.Fault = func(op fakepg.Op) fakepg.Fault {
+				if op.Kind == fakepg.OpCommit {
+					if seen++; seen == k {
+						commitFault = true
+						return fakepg.Fault{Kind: kind, Code: "40001"}
+					}
+				}
+				return fakepg.Fault{}
+			}
+			r := m.step(p)
+			w.db.Fault = nil
+			m.logf("  (commit #%d of that step was made to fail: %v)", k, seen >= k)
+			check(p, r)
+			check(p, m.step(p))
 		case 4:
 			// blocks arrive while the step is under way (between two of its requests)
 			p := m.pickPair("steppair")
@@ -222,7 +241,7 @@ func c06Property(rt *rapid.T, ev *evid.Rec, deps bool) {
 		}
 	}
 	nontrivial := straddle || aboveHead || resumed
-	labels := []string{fmt.Sprintf("straddle=%v", straddle), fmt.Sprintf("aboveHead=%v", aboveHead), fmt.Sprintf("resumed=%v", resumed), fmt.Sprintf("grewMidStep=%v", midGrowth)}
+	labels := []string{fmt.Sprintf("straddle=%v", straddle), fmt.Sprintf("aboveHead=%v", aboveHead), fmt.Sprintf("resumed=%v", resumed), fmt.Sprintf("grewMidStep=%v", midGrowth), fmt.Sprintf("commitFailed=%v", commitFault)}
 	for l := range m.labels {
 		labels = append(labels, l)
 	}
